@@ -515,6 +515,13 @@ func (p *Program) canon(fn *Func, x ast.Expr, depth int) string {
 				return "recv"
 			}
 			if isParamOf(fn, o) {
+				// a parameter that the function itself re-assigns (v = normalise(v)) denotes, after the assignment, what
+				// was assigned — not the caller's argument any more
+				if len(fn.Defs().sites[o]) > 0 {
+					if s, ok := p.pathDef(fn, v, o, depth); ok {
+						return s
+					}
+				}
 				// parameter of a bound helper instance: the caller's argument
 				for f := fn; f != nil; f = f.Outer {
 					if i := paramIndex(f, o); i >= 0 {
